@@ -217,6 +217,12 @@ type Result struct {
 }
 
 type Ctx struct {
+	// Fails counts every MonitorFail call (before de-duplication).  While Capture is set, failures are collected
+	// there instead of being reported (scheduled / crash scenarios classify them by root cause first).
+	Fails   int
+	Capture *[]MonitorFailure
+	// this run is shard ShardK of ShardN (enumerating streams split their scenarios by it)
+	ShardK, ShardN int
 	Rng     *Rng
 	Seed    uint64
 	Tier    string
@@ -261,6 +267,11 @@ func (c *Ctx) Disagree(props []string, op, impl, model string, replay any) {
 }
 
 func (c *Ctx) MonitorFail(prop, sig, what string, replay any) {
+	c.Fails++
+	if c.Capture != nil {
+		*c.Capture = append(*c.Capture, MonitorFailure{prop, sig, what, replay})
+		return
+	}
 	for _, f := range c.Res.MonitorFailures {
 		if f.Prop == prop && f.Signature == sig {
 			return // one replay per signature is enough
